@@ -669,7 +669,8 @@ func execDraw(line string) (res h.Result) {
 							sh.locked[[2]int{k, j}] = true
 							delete(pendingUnlock, [2]int{k, j})
 						} else {
-							if sh.locked[[2]int{k, j}] {
+							wasLocked := sh.locked[[2]int{k, j}]
+							if wasLocked {
 								pendingUnlock[[2]int{k, j}] = true
 							} else {
 								tags["unlock-not-locked"] = true
@@ -682,8 +683,10 @@ func execDraw(line string) (res h.Result) {
 							if widthOf(get(k, j).main) > 1 {
 								sh.changed[[2]int{k + 1, j}] = true
 							}
-							// an unlocked cell that is the right half of a wide rune is repainted through that rune
-							if k > 0 && widthOf(get(k-1, j).main) > 1 {
+							// a cell that was really locked and is the right half of a wide rune: that rune is repainted (what it
+							// may display depended on the lock of this cell).  "Unlocking" a cell that was not locked changes
+							// nothing about its left neighbour.
+							if wasLocked && k > 0 && widthOf(get(k-1, j).main) > 1 {
 								sh.changed[[2]int{k - 1, j}] = true
 								tags["unlock-right-of-wide"] = true
 							}
